@@ -88,6 +88,11 @@ def run(chk, replay):
     for e in entries:
         for p in plants:
             for sh in shapes:
+                # quick tier: the DAGStore methods go through the same three loaders (skeleton tie); they get every shape
+                # in params / env / logDir and three representative shapes elsewhere
+                if (chk.tier == "quick" and not replay and e in ("UpdateSpec", "GetDetails", "List")
+                        and p.get("root") not in ("Params", "Env", "LogDir") and sh not in ("bare", "dq-mid", "named-dq")):
+                    continue
                 cases.append({"id": "%s|%s|%s|%s" % (e, p["path"], p["variant"], sh), "mode": "canary", "entry": e, "path": p["path"],
                               "variant": p["variant"], "root": p.get("root", ""), "shape": sh})
     # every random choice from the seeded PRNG: the order of the cases (effects must not depend on it)
@@ -109,7 +114,7 @@ def run(chk, replay):
         observed.setdefault((c["entry"], c["path"], c["root"]), set()).update(kinds)
         outcomes[o.get("outcome", "?").split(":")[0]] = outcomes.get(o.get("outcome", "?").split(":")[0], 0) + 1
         chk.nontrivial.add((c["entry"], c["path"], c["variant"], c.get("shape")))
-        if c["entry"] == "Load" and kinds:
+        if c["entry"] == "Load" and o.get("fired"):
             live.setdefault(c["path"], set()).add(c.get("shape"))
         # ---- the property itself on the implementation
         if c["entry"] in NON_EVAL:
